@@ -565,6 +565,35 @@ fn search_c12_accumulate(dir: &str) {
     }
 }
 
+fn search_c12_eof_message(dir: &str) {
+    // descriptors that arrive with an EMPTY message (the read that reports end of stream) stay with the connection and are
+    // closed when it is dropped -- a SOCK_SEQPACKET pair can carry descriptors on a zero-length message
+    use vmm_sys_util::sock_ctrl_msg::ScmSocket;
+    use std::os::unix::io::FromRawFd;
+    let mut sv = [0i32; 2];
+    if unsafe { libc::socketpair(libc::AF_UNIX, libc::SOCK_SEQPACKET, 0, sv.as_mut_ptr()) } != 0 { return; }
+    let (a, b) = unsafe { (UnixStream::from_raw_fd(sv[0]), UnixStream::from_raw_fd(sv[1])) };
+    let _ = a.set_nonblocking(true);
+    let before = open_fds();
+    {
+        let mut c = HttpConnection::new(a);
+        let mut files = vec![];
+        for i in 0..3 { if let Ok(f) = std::fs::OpenOptions::new().create(true).read(true).write(true).truncate(true).open(format!("{}/e{}", dir, i)) { files.push(f); } }
+        let fds: Vec<i32> = files.iter().map(|f| f.as_raw_fd()).collect();
+        let empty: [u8; 0] = [];
+        if b.send_with_fds(&[&empty[..]], &fds).is_err() { return; }   // this kernel refuses it: inconclusive
+        drop(files);
+        let _ = c.try_read();
+        while let Some(r) = c.pop_parsed_request() { drop(r); }
+    }
+    let after = open_fds();
+    drop(b);
+    if after.len() > before.len() {
+        let _ = std::fs::remove_dir_all(dir);
+        found("C12", "three descriptors arrive with an empty message (the read that reports end of stream); the connection is dropped".into(), format!("{} descriptors still open that were not open before (e.g. {:?})", after.len() - before.len(), after.iter().filter(|x| !before.contains(x)).take(5).collect::<Vec<_>>()), "every received descriptor closed when the connection is dropped".into());
+    }
+}
+
 fn search_c12(budget: usize) {
     use vmm_sys_util::sock_ctrl_msg::ScmSocket;
     use std::io::{Seek, SeekFrom};
@@ -574,6 +603,7 @@ fn search_c12(budget: usize) {
     let _ = std::fs::create_dir_all(&dir);
     search_c12_bulk(&dir);
     search_c12_accumulate(&dir);
+    search_c12_eof_message(&dir);
     while tried < budget {
         // k requests, pieces with descriptors attached; expected: every descriptor goes, in arrival order, to the
         // first request completing at or after its read.  Descriptors are told apart by the number written in the file.
